@@ -12,7 +12,7 @@ from ..gen import mesh as G
 
 PID = "C19"
 TITLE = "Samplers stay on their domain; Bezier evaluation matches Bernstein form"
-LEAN_MODULES = ["Mouette.Props.C19"]
+LEAN_MODULES = ["Mouette.Props.C19", "Mouette.Props.C19Source", "Mouette.Props.C19Ext"]
 REQUIRED_THEOREMS = [
     # sampling
     "box_uniform_contained", "box_grid_contained", "box_grid_count", "sphere_on_sphere", "ball_in_ball",
@@ -31,12 +31,27 @@ REQUIRED_THEOREMS = [
     "box_guard_gives_BoxLE", "face_normal_orthogonal", "ball_reaches_boundary", "box_grid_spans", "export_params_in_range", "deCasteljau_eq_mathlib_bernstein",
     # refutations of the pinned (unrepaired) laws on concrete witnesses
     "pinned_ball_law_refuted", "pinned_grid_law_refuted", "pinned_surface_index_refuted",
+    # round 2 — Props/C19Source: bridges to further translated fragments + the clauses on the extracted expressions
+    "bridge_triCoord", "bridge_triWeights", "surface_point_barycentric_source", "bridge_surfIndices", "bridge_surfProb",
+    "surface_probabilities_source", "bridge_segCoord", "bridge_polyGuard", "bridge_polyProb", "polyline_point_on_edge_source",
+    "bridge_sphereCoord", "sphere_on_sphere_source", "bridge_dcRaises", "dcRaises_iff", "bridge_dcLoop",
+    "source_deCasteljau_eq_model", "source_deCasteljau_eq_bernstein", "bridge_evaluateRow", "bridge_patchEvaluate",
+    "bridge_surfVert", "patch_eq_bernstein_source",
+    # round 2 — Props/C19Ext: wrapping options (list level, all n) and the grid resolution
+    "wrapPts_spec", "wrapSurface_spec", "polyline_out", "surface_out", "surface_out_no_normals", "sampled_normals_list",
+    "wrapBox_spec", "pad3_spec", "grid_resolution_nearest_root", "grid_resolution_nearest_root_rat",
+    "grid_resolution_integer_test", "grid_count_nearest_power", "grid_resolution_zero",
 ]
 TRUSTED = [
     "Lean 4.33.0 kernel; axioms ⊆ {propext, Classical.choice, Quot.sound}",
     "hand-written models Mouette/Model/Sampling.lean, Bezier.lean tied to mouette/sampling.py, splines/bezier.py by "
     "(a) translated fragments (index expressions/range bounds of as_surface/as_polyline, operation order of sample_ball/"
-    "sample_AABB) with bridge lemmas and (b) the recorded-stream correspondence of this run",
+    "sample_AABB/sample_sphere, barycentric map + probability vector + face/normal index of sample_surface, guard + "
+    "interpolation + probability vector of sample_polyline, range guard + loop bounds + update expression of de_casteljau "
+    "read as an imperative in-place loop, row/column ranges and parameters of BezierPatch._evaluate_row/evaluate/as_surface) "
+    "with bridge lemmas and (b) the recorded-stream correspondence of this run",
+    "Model/SamplingWrap.lean (return_point_cloud / return_normals as model functions) is tied to the code by the structural "
+    "checks of the translator (which array is wrapped / returned) and by the oracle, not by the driver protocol",
     "numpy.random.{normal,uniform,random,choice} are replaced by a recorded stream: their distributions (normal direction "
     "uniform on the sphere, choice follows p) are NOT verified (T7); the chi-square test of the thorough tier is statistical",
     "sqrt / cbrt / norm are recorded parameters carrying a hypothesis (s*s=g.g, c^3=u); the hypothesis holds exactly on part "
@@ -45,7 +60,8 @@ TRUSTED = [
     "the ast translator of vlib/props/c19.py (symbolic evaluation of the straight-line numpy statements)",
 ]
 ASSUMPTIONS = ["agreement model/implementation is established on the cases explored in this run only",
-               "grid count: res = round(n^(1/d)) is taken as the meaning of 'nearest perfect power' (root nearest)"]
+               "grid count: res = round(n^(1/d)) is taken as the meaning of 'nearest perfect power' (root nearest); the oracle's integer "
+               "test (2res-1)^d <= 2^d n <= (2res+1)^d is proved equivalent to |res - n^(1/d)| <= 1/2 (grid_count_nearest_power)"]
 RULE = ("sampler calls with recorded random streams (centres != 0, radii on both sides of 1, boxes of dimension 1-6 in both modes, "
         "empty boxes, polylines/triangulated surfaces from the shared generators incl. single-edge/single-face, normals/point-cloud "
         "switches) and Bezier curves/patches (degree 0-6, dim 1-4, parameters incl. 0, 1 and out-of-range, exports with unequal "
@@ -1221,8 +1237,11 @@ MANIFEST = {
                    "probability vector handed to numpy.random.choice is non-negative, sums to 1 and is proportional to length/area; the in-place de "
                    "Casteljau loop as coded equals the Bernstein polynomial (Nat.choose form, induction on the degree) for curves and patches, "
                    "interpolates end control points, has convex-hull coefficients on [0,1], rejects parameters outside [0,1]; as_surface/as_polyline "
-                   "indices are in range, injective and enumerate the loop nest for ALL (n1,n2). Index expressions, range bounds and the operation "
-                   "order of sample_ball/sample_AABB are re-extracted from the source with Python ast on every run (bridge lemmas). The models are "
+                   "indices are in range, injective and enumerate the loop nest for ALL (n1,n2). Index expressions, range bounds, guards, update "
+                   "expressions, probability vectors and the barycentric/affine maps of sampling.py and bezier.py are re-extracted from the source "
+                   "with Python ast on every run (9 sites, bridge lemmas; the de_casteljau loop nest read imperatively is proved equal to the model); "
+                   "the point-cloud/normals options are model functions with list-level theorems; the grid resolution test of the oracle is proved "
+                   "equivalent to 'nearest integer to n^(1/d)'. The models are "
                    "tied to the code by a recorded-random-stream correspondence and a direct oracle (exact Fractions)."),
     "level_note": ("Trusted: Lean kernel + propext/Classical.choice/Quot.sound; hand-written models (checked against the code on the cases of each run "
                    "and through the translated fragments); numpy's random generators (distribution not verified; chi-square sanity test in the thorough "
